@@ -142,7 +142,7 @@ def main(repo, out):
                   and bool(re.search(r'rib\.kind\.holds_locals\(\)\s*&&\s*crossed_local_border\.is_some\(\)', resolve))
         if not skip_ok: notes.append('resolve: unrecognised barrier/mapfile conditions')
 
-    # visit_call_args_with_signature_info: are arguments beyond the callee's last parameter visited?
+    # visit_call_args_with_signature_info: which arguments that are not matched with a parameter are visited?
     vargs, _ = block_after(src, r'fn\s+visit_call_args_with_signature_info\s*\(&mut\s+self,\s*call:\s*&ast::ExprCall,\s*siggy:\s*Option<&Signature>\)\s*')
     excess = None
     if vargs is None:
@@ -154,19 +154,32 @@ def main(repo, out):
             for pat, rhs in split_arms(inner):
                 if nows(pat) == 'Some(siggy)': some_arm = nows(rhs)
                 elif nows(pat) == 'None': none_arm = nows(rhs)
-        zipped = 'letMatchedArgs{positional_pairs}=siggy.match_params_to_args(&call.args);for(param,arg)inpositional_pairs{self.ty_color_stack.push(param.ty_color.clone().map(|x|x.value));self.visit_expr(arg);self.ty_color_stack.pop();}'
-        rest_loops = ['forargincall.args.iter().skip(siggy.params.len()){self.visit_expr(arg);}',
-                      'forargin&call.args[siggy.params.len().min(call.args.len())..]{self.visit_expr(arg);}']
+        head = 'letMatchedArgs{positional_pairs}=siggy.match_params_to_args(&call.args);'
+        body = 'self.ty_color_stack.push(param.ty_color.clone().map(|x|x.value));self.visit_expr(arg);self.ty_color_stack.pop();'
+        zipped = head + 'for(param,arg)inpositional_pairs{' + body + '}'
+        counted = head + 'letmutnum_matched=0;for(param,arg)inpositional_pairs{num_matched+=1;' + body + '}'
+        after_params = ['forargincall.args.iter().skip(siggy.params.len()){self.visit_expr(arg);}']
+        after_matched = ['forargincall.args.iter().skip(num_matched){self.visit_expr(arg);}']
         if none_arm != 'call.args.iter().for_each(|arg|self.visit_expr(arg))' or some_arm is None:
             notes.append('visit_call_args_with_signature_info: unrecognised arms')
         elif some_arm == '{' + zipped + '}':
-            excess = False
-        elif any(some_arm == '{' + zipped + r + '}' for r in rest_loops):
-            excess = True
+            excess = 'ExNone'
+        elif any(some_arm == '{' + zipped + r + '}' for r in after_params):
+            excess = 'ExAfterParams'
+        elif any(some_arm == '{' + counted + r + '}' for r in after_matched):
+            excess = 'ExAfterMatched'
         else:
             notes.append('visit_call_args_with_signature_info: unrecognised Some arm')
-    zip_ok = bool(re.search(r'self\.params\.iter\(\)\.zip\(\s*args\s*\)', defs))
-    if not zip_ok: notes.append('match_params_to_args: unrecognised')
+    # Signature::match_params_to_args: are parameters with a default (padding) left out of the zip?
+    mp, _ = block_after(defs, r'pub\s+fn\s+match_params_to_args<\'a>\s*\(&\'a\s+self,\s*args:\s*&\'a\s*\[Sp<ast::Expr>\]\)\s*->\s*MatchedArgs<\'a>\s*')
+    zip_skips = None
+    if mp is None:
+        notes.append('match_params_to_args: not found')
+    else:
+        m = nows(mp)
+        if m == 'letpositional_pairs=Box::new(self.params.iter().zip(args));MatchedArgs{positional_pairs}': zip_skips = False
+        elif m == 'letpositional_pairs=Box::new(self.params.iter().filter(|param|param.default.is_none()).zip(args));MatchedArgs{positional_pairs}': zip_skips = True
+        else: notes.append('match_params_to_args: unrecognised')
 
     def lst(name, ty, l):
         return 'Definition %s : list %s := %s.\n' % (name, ty, coq_list(l) if l is not None else '[] (* unrecognised *)')
@@ -181,7 +194,8 @@ def main(repo, out):
     text += lst('gen_script_ribs', '(nstag * ribtag)', script_p)
     for k, v in steps.items(): text += bl(k, v)
     text += bl('gen_resolve_conditions', skip_ok)
-    text += bl('gen_visit_excess_args', excess)
+    text += 'Definition gen_excess_mode : excess_mode := %s.\n' % (excess or 'ExNone (* unrecognised *)')
+    text += bl('gen_zip_skips_padding', zip_skips)
     text += 'Definition gen_recognised : bool := %s.\n' % ('true' if not notes else 'false')
     text += '(* translator notes:\n' + ''.join('   %s\n' % n.replace('*)', '* )') for n in notes) + '*)\n'
     write_if_changed(out, text)
